@@ -334,6 +334,11 @@ void explore_f(Ctx &ctx, const char *family) {
                         if (V.dontcare(fi, bb, mlen)) continue;
                         go(FLIP, (int) fi, bb, true);
                     }
+                    if (step > 1) {      // sampled sweep: the structurally special bits are always included (first / last byte, the byte-31 bits an
+                                         // X25519 key embedded in the field would have masked, the first bits after a 32-byte header)
+                        for (size_t fb : { (size_t) 0, (size_t) 1, (size_t) 7, (size_t) 8, (size_t) 248, (size_t) 249, (size_t) 254, (size_t) 255, (size_t) 256, (size_t) 263, nbits - 1, nbits - 8 })
+                            if (fb >= fd.protect_prefix * 8 && fb < nbits && !V.dontcare(fi, fb, mlen)) go(FLIP, (int) fi, fb, true);
+                    }
                     if (nbits >= 64 && nbits <= 1024) {       // keys, nonces, tags, short ciphertexts: paired flips 4 / 8 / 16 / 32 bytes apart
                         for (size_t dist : { (size_t) 4, (size_t) 8, (size_t) 16, (size_t) 32 }) {
                             if (dist * 8 >= nbits) continue;
